@@ -44,6 +44,8 @@ def run_pair(hbin, args, timeout=900):
                     OPS_SEEN.update(f[4:].split(","))
         elif l.startswith("OPS "):
             REGISTRY["names"] = l.split()[1].split(",")
+        elif l.startswith("MODE romsizedata="):
+            REGISTRY["romsizedata"] = l.strip().endswith("=1")
     if rc != 0:
         raise RuntimeError("harness failed rc=%s: %s" % (rc, err[-2000:]))
     rc2, model, err2 = vlib.run([_oracle()], input_bytes=impl.encode(), timeout=timeout)
@@ -119,6 +121,12 @@ def source_of(inst):
     if inst["kind"].startswith("bondgo:") and w.split()[0] in BONDGO_PROGS:
         opts = " ".join("-" + o for o in inst["kind"].split(":", 1)[1].split("+"))
         return "// bondgo %s -input-file %s -register-size %s -save-bondmachine bm.json\n" % (opts, w.split()[0], w.split("=")[-1]) + BONDGO_PROGS[w.split()[0]]
+    if inst["kind"].startswith("bmqsim:") and inst["kind"].split(":")[2][:-1].isdigit():
+        n = int(inst["kind"].split(":")[2][:-1])
+        qb = ",".join("q%d" % i for i in range(n))
+        return ("; bmqsim -build-matrix-seq-hardcoded -hw-flavor %s -save-basm out.basm circ.bmq   (then basm on out.basm)\n" % inst["kind"].split(":")[1]
+                + "%block code1 .sequential\n\tqbits\t" + qb + "\n\tzero\t" + qb + "\n\th\tq0\n"
+                + "".join("\tcx\tq%d, q%d\n" % (i - 1, i) for i in range(1, n)) + "%endblock\n\n%meta bmdef global main:code1\n")
     return None
 
 
@@ -154,16 +162,28 @@ def front_end_files(rep, thorough):
         notes.append("neuralbond CLI does not build: %s" % str(e)[-300:])
     try:
         qs = vlib.go_build_repo("bmqsim")
-        for fl in ["seq_hardcoded_real", "seq_hardcoded_complex"] + (["seq_hardcoded_addtree_complex"] if thorough else []):
-            outf = os.path.join(d, "qs-%s.basm" % fl)
-            if os.path.exists(outf):
-                os.remove(outf)
-            rc, so, se = vlib.run([qs, "-build-matrix-seq-hardcoded", "-hw-flavor", fl, "-save-basm", outf,
-                                   os.path.join(vlib.REPO, "cmd", "bmqsim", "program.bmq")], timeout=120, cwd=d)
-            if rc == 0 and os.path.exists(outf):
-                sets.append(("bmqsim:%s" % fl, [outf]))
-            else:
-                notes.append("bmqsim flavor %s failed: %s" % (fl, (so + se)[-300:]))
+        # every hardware flavour the tool lists, on circuits of 1..3 qubits (4 in the thorough tier): h on the first qubit
+        # and a chain of cx; the adder tree of the addtree flavour gets a level per qubit
+        rc, so, se = vlib.run([qs, "-build-matrix-seq-hardcoded", "-hw-flavor-list", os.path.join(vlib.REPO, "cmd", "bmqsim", "program.bmq")],
+                              timeout=60, cwd=d)
+        flavors = [l.strip() for l in (so + se).splitlines() if l.strip().startswith("seq_")] or \
+                  ["seq_hardcoded_real", "seq_hardcoded_complex", "seq_hardcoded_addtree_complex"]
+        for n in ([1, 2, 3, 4] if thorough else [1, 2, 3]):
+            qb = ",".join("q%d" % i for i in range(n))
+            prog = os.path.join(d, "circ%d.bmq" % n)
+            open(prog, "w").write("%block code1 .sequential\n\tqbits\t" + qb + "\n\tzero\t" + qb + "\n\th\tq0\n"
+                                  + "".join("\tcx\tq%d, q%d\n" % (i - 1, i) for i in range(1, n)) + "%endblock\n\n%meta bmdef global main:code1\n")
+            for fl in sorted(flavors):
+                if fl != "seq_hardcoded_addtree_complex" and (n == 4 or (n == 3 and not thorough)):
+                    continue   # (quick tier: the third qubit only for the flavour whose wiring grows a tree level with it)
+                outf = os.path.join(d, "qs-%s-%d.basm" % (fl, n))
+                if os.path.exists(outf):
+                    os.remove(outf)
+                rc, so, se = vlib.run([qs, "-build-matrix-seq-hardcoded", "-hw-flavor", fl, "-save-basm", outf, prog], timeout=300, cwd=d)
+                if rc == 0 and os.path.exists(outf):
+                    sets.append(("bmqsim:%s:%dq" % (fl, n), [outf]))
+                else:
+                    notes.append("bmqsim flavor %s on %d qubits failed: %s" % (fl, n, (so + se)[-300:]))
     except vlib.BuildError as e:
         notes.append("bmqsim CLI does not build: %s" % str(e)[-300:])
     return sets + later, notes
@@ -574,7 +594,8 @@ def run(rep):
         insts += instances(model)
         sets, notes = front_end_files(rep, thorough)
         for kind, files in sets:
-            _, model = run_pair(hbin, ["files", kind, "nodyn", "-"] + files)
+            # bmqsim builds its machines from matrices: every port of every processor it creates is wired (checked: `pb`)
+            _, model = run_pair(hbin, ["files", kind, "nodyn", "pb" if kind.startswith("bmqsim:") else "-"] + files)
             insts += instances(model)
         for kind, files in sets[:2] if not thorough else sets:
             # the default (dynamic matching) configuration with the word-size chooser, in its own process
@@ -637,6 +658,13 @@ def run(rep):
                        "bondgo's single-processor output (-save-machine) is a processor, not a BondMachine: not an instance of this property",
                        "dynamic opcode families (rsetsN, …) are outside BMV.Arch.layout: such machines get the verdict 'unmodelled'"] + notes,
     })
+    if REGISTRY.get("romsizedata") is False:
+        rep.coverage["unmodelled"].append("OPEN DEFECT of the tree under test (probed, not generated): `cpdef … romsize:N` together with a romdata section — "
+                     "CreateConnectingProcessor sizes the ROM with `2 ^ val` (XOR, not a power) + the data words, the program is assembled "
+                     "with that address width, then assembler2NewBondMachine recomputes O from code + data: jump targets are encoded "
+                     "on one width and declared on another (`jz r0, last` to address 5 reads 10 with romsize:3 or :6 and 4 data words), "
+                     "and the requested depth is ignored.  Proposed repair: repo_patches/C16-romsize-romdata.diff.  Until the probe "
+                     "(harness/basmdump ProbeRomsizeData) passes, generated sources do not combine romsize with romdata")
     names = REGISTRY.get("names", [])
     rep.coverage["static_opcodes"] = {
         "registered": len(names), "registered_twice": REGISTRY.get("dups", []),
@@ -693,7 +721,7 @@ def replay(rep, path):
     vlib.lake_build([EXE])
     obj = json.load(open(path))
     src = obj.get("source")
-    if not src or not str(obj.get("front_end", "gen:")).startswith(("gen:", "text")):
+    if not src or not str(obj.get("front_end", "gen:")).startswith(("gen:", "text", "ops:")):
         rep.coverage.update({"evaluations": 1, "distinct_nontrivial": 1, "rule": "replay of " + path + " (no source text stored: front-end instance, re-run the check)",
                              "samples": [obj.get("input")]})
         return
